@@ -8,3 +8,5 @@ cargo build --release --offline --workspace --bins
 # ./check builds one package at a time (-p), which resolves features per package: warm those builds too
 cargo build --release --offline -p light --bins
 cargo build --release --offline -p checks --bins
+# C16 stage 2: build the Miri sysroot and the threaded scenario under the interpreter (offline; rust-src is installed)
+MIRIFLAGS="-Zmiri-disable-isolation" cargo +nightly miri run --offline -q -p c16_miri -- 1 1 2 2
